@@ -146,6 +146,18 @@ def oracle(script: dict, run: Any) -> List[Violation]:
             if ks:
                 out.append(Violation("C15/cancelled-sent", f"one-shot {sid} was sent although its source cancels it in pre_send"))
             continue
+        really_failed = [e for e in h.kind("kick_fail") if e[4]["marker"] == sid]
+        if really_failed and not good:
+            # a one-shot whose send failed is still in its source (post_send never ran) and long due: the next poll that lists it
+            # sends it again - a failed send costs that attempt, it does not block the schedule
+            t_fail = really_failed[0][2]
+            nxt_poll = next((p for p in ps if p["wall"] is not None and p["wall"] > t_fail and sid in p["listed"].get(src, []) and p["wall"] < end - 2_500_000), None)
+            if nxt_poll is not None:
+                hi2 = nxt_poll["wall"] + 1_000_000 + SLACK_US + tol
+                if not any(nxt_poll["wall"] <= e[2] <= hi2 for e in ks):
+                    out.append(Violation("C15/one-shot-not-retried-after-failed-send", f"one-shot {sid}: its send at {from_us(t_fail).isoformat()} failed, the poll at "
+                                         f"{from_us(nxt_poll['wall']).isoformat()} listed it again (T={from_us(T).isoformat()} is past) but it was not sent", sid=sid))
+                    continue
         if len(good) > 1:
             sub = ""
             if sp.get("label"):
